@@ -1,6 +1,7 @@
 package main
 
-// C07 — Equals is exactly typed structural equality.
+// C07 — Equals is exactly typed structural equality. Decided on the SX path normal form (robust to
+// inverted ifs, `return ok && a == b`, type switches, renamed/hoisted locals, extracted helpers).
 
 import (
 	"go/ast"
@@ -11,14 +12,14 @@ import (
 func init() {
 	register(&Property{
 		ID: "C07",
-		Explanation: "Sibling agreement over the 7 isEqual implementations (Engler-style cross-check): each starts with a comma-ok assertion of the operand to the receiver's own concrete type and returns false when it fails; " +
-			"scalars compare the same payload field of both operands with ==; containers compare lengths before the element loop, visit every element/key of the receiver's spine, compare a[k] with b[k] for the same k, " +
-			"return false on the first mismatch and true only after the loop; Equals delegates to isEqual with the argument unchanged; the family is write-free (E3). " +
+		Explanation: "Sibling agreement over the 7 isEqual implementations, decided on the symbolic path normal form (SX): the result of every scalar isEqual, as a truth table over its two atoms, is exactly `operand has the receiver's own concrete type AND payload == payload` " +
+			"(the nil wrapper: `operand is a nil wrapper`), with the payload compared only after the type test succeeded; no other type test of the operand exists. Containers: true is returned only on paths that passed the own-type test, the length equality and the complete element loop; " +
+			"the loop ranges the receiver's spine, compares recv[k].isEqual(other[k]) for the same range key k and returns false on the first mismatch; nothing is written (E3). " +
 			"Reflexivity/symmetry/transitivity follow on paper from exactness (DESIGN.md §4 C07); NaN is excluded by the property.",
 		Rules: []Rule{
-			{ID: "C07.R1", Doc: "kind strictness: first action of every isEqual is `x, ok := other.(*Own)` (comma-ok, own type only) and !ok leads to return false", Run: c07Run},
-			{ID: "C07.R2", Doc: "scalars return recv.val == other.val on the same payload field; the nil wrapper returns ok", Run: func(c *Ctx) {}},
-			{ID: "C07.R3", Doc: "containers: length comparison dominates the loop; loop visits every receiver element/key; compares a[k].isEqual(b[k]) with the same k; false on first mismatch; true only after the loop", Run: func(c *Ctx) {}},
+			{ID: "C07.R1", Doc: "kind strictness: the only type test of the operand is for the receiver's own concrete type, and a failed test yields false before anything else is evaluated", Run: c07Run},
+			{ID: "C07.R2", Doc: "scalars: result == (own type AND recv.payload == other.payload) as a truth table; the nil wrapper: result == own type", Run: func(c *Ctx) {}},
+			{ID: "C07.R3", Doc: "containers: true only after own-type test, length equality and the complete loop over the receiver's spine comparing recv[k].isEqual(other[k]); false on first mismatch", Run: func(c *Ctx) {}},
 			{ID: "C07.R4", Doc: "Equals delegates to isEqual of the receiver with its argument unchanged", Run: c07R4},
 			{ID: "C07.R5", Doc: "PURE: isEqual and Equals write nothing", Run: func(c *Ctx) {
 				var names []string
@@ -34,6 +35,40 @@ func init() {
 	})
 }
 
+// ownTypeAtom classifies a condition term of an isEqual body: "ok" (own-type test of the operand), "" otherwise.
+// It also reports a test of the operand for ANOTHER type.
+func ownTypeAtom(t Term, par types.Object, own types.Type) (isOK bool, foreign bool) {
+	switch x := t.(type) {
+	case TProj:
+		if a, ok := x.X.(TAssert); ok && x.K == 1 && isParamTerm(a.X, par) {
+			if types.Identical(a.To, own) {
+				return true, false
+			}
+			return false, true
+		}
+	case TTypeIs:
+		if isParamTerm(x.X, par) {
+			if x.To != nil && types.Identical(x.To, own) {
+				return true, false
+			}
+			return false, true
+		}
+	}
+	return false, false
+}
+
+// otherValue: t is the operand seen as the receiver's own type: another.(*T)#0 or another.(*T) (type-switch binding).
+func otherValue(t Term, par types.Object, own types.Type) bool {
+	switch x := t.(type) {
+	case TProj:
+		a, ok := x.X.(TAssert)
+		return ok && x.K == 0 && isParamTerm(a.X, par) && types.Identical(a.To, own)
+	case TAssert:
+		return isParamTerm(x.X, par) && types.Identical(x.To, own)
+	}
+	return false
+}
+
 func c07Run(c *Ctx) {
 	n := 0
 	for _, t := range c.Inv().Impls {
@@ -43,235 +78,299 @@ func c07Run(c *Ctx) {
 			continue
 		}
 		n++
-		ct := c.Inv().ContOf(t)
-		ob := c.Ob("C07.R1", name, fd.Pos())
-		// parameter
-		var par types.Object
-		if len(fd.Type.Params.List) == 1 && len(fd.Type.Params.List[0].Names) == 1 {
-			par = c.Info.Defs[fd.Type.Params.List[0].Names[0]]
-		}
-		if par == nil || len(fd.Body.List) < 2 {
-			ob.Undecided("unexpected signature or body")
-			continue
-		}
-		as, ok := fd.Body.List[0].(*ast.AssignStmt)
-		if !ok || len(as.Lhs) != 2 || len(as.Rhs) != 1 {
-			ob.Fail("first statement is not a comma-ok type assertion (the one-result form panics on another kind)")
-			continue
-		}
-		ta, ok := unparen(as.Rhs[0]).(*ast.TypeAssertExpr)
-		if !ok || ta.Type == nil || c.obj(ta.X) != par {
-			ob.Fail("first statement does not assert the operand")
-			continue
-		}
+		par := soleParam(c, fd)
 		own := types.NewPointer(t)
-		if !types.Identical(c.typeOf(ta.Type), own) {
-			ob.Fail("operand is asserted to %s, not to the receiver's own type %s: values of another kind could compare equal", shortType(c.typeOf(ta.Type)), shortType(own))
+		ob := c.Ob("C07.R1", name, fd.Pos())
+		if par == nil {
+			ob.Undecided("unexpected signature")
 			continue
 		}
-		other, okv := c.obj(as.Lhs[0]), c.obj(as.Lhs[1])
-		if okv == nil {
-			ob.Fail("the ok result of the assertion is discarded")
-			continue
-		}
-		// no other assertion of the operand anywhere
-		extra := false
-		ast.Inspect(fd.Body, func(m ast.Node) bool {
-			if x, ok := m.(*ast.TypeAssertExpr); ok && x != ta && c.obj(x.X) == par {
-				extra = true
+		v := c.view(fd)
+		paths := c.NewSX().Run(fd)
+		why := ""
+		for _, p := range paths {
+			if p.Why != "" {
+				why = p.Why
 			}
-			if x, ok := m.(*ast.TypeSwitchStmt); ok {
-				_ = x
-				extra = true
+		}
+		if why != "" {
+			ob.Undecided("body outside the path vocabulary: %s", why)
+			continue
+		}
+		// R1: every outcome starts with the own-type test; no foreign type test anywhere; a failed test decides alone
+		bad := ""
+		for _, o := range boolOutcomes(paths) {
+			conds := o.Conds
+			if len(conds) == 0 {
+				bad = "a path reaches its result without testing the operand's type"
+				break
 			}
-			return true
-		})
-		if extra {
-			ob.Fail("the operand is examined by a second assertion / type switch: more than one kind is accepted")
+			isOK, _ := ownTypeAtom(conds[0].T, par, own)
+			if !isOK {
+				bad = "the first decision is not the comma-ok / type-switch test of the operand for the receiver's own type " + shortType(own)
+				break
+			}
+			for _, cd := range conds {
+				if _, foreign := ownTypeAtom(cd.T, par, own); foreign {
+					bad = "the operand is also tested for another type: values of another kind could compare equal"
+				}
+			}
+			if !conds[0].Truth && (o.Panic || o.Unknown || o.Val || len(conds) != 1 || len(o.Path.Effects()) != 0) {
+				bad = "a failed type test does not lead straight to `false`"
+			}
+		}
+		if bad != "" {
+			ob.Fail("%s", bad)
 			continue
 		}
-		rest := fd.Body.List[1:]
-		isScalar := ct == nil
-		st, _ := t.Underlying().(*types.Struct)
-		if isScalar && st != nil && st.NumFields() == 0 {
-			// nil wrapper: return ok
-			r, isR := rest[0].(*ast.ReturnStmt)
-			good := len(rest) == 1 && isR && len(r.Results) == 1 && c.obj(r.Results[0]) == okv
-			ob.Check(good, "nil equals exactly nil: returns the ok of the own-type assertion", "nil wrapper's isEqual is not `_, ok := other.(*own); return ok`")
-			c.Ob("C07.R2", name, fd.Pos()).Check(good, "returns ok", "does not return ok")
-			continue
-		}
-		// second statement: if !ok [|| ...] { return false }
-		is, isIf := rest[0].(*ast.IfStmt)
-		if !isIf || is.Else != nil || is.Init != nil || !c.returnsConstBool(is.Body, false) {
-			ob.Fail("the assertion is not followed by `if !ok ... { return false }`")
-			continue
-		}
-		disj := splitOr(is.Cond)
-		at0 := atomOf(disj[0], false)
-		if !at0.Neg || c.obj(at0.Expr) != okv {
-			ob.Fail("`!ok` is not the first disjunct of the rejecting condition (a later operand would dereference a nil value)")
-			continue
-		}
-		ob.Ok("comma-ok assertion to own type %s; !ok returns false before anything else is evaluated", shortType(own))
-		if isScalar {
-			c07Scalar(c, fd, name, rest, disj, other, st)
+		ob.Ok("the only type test of the operand is for the receiver's own type %s, it is decided first on every path, and a failed test decides the result alone", shortType(own))
+		ct := c.Inv().ContOf(t)
+		if ct == nil {
+			c07Scalar(c, fd, name, t, par, own, v, paths)
 		} else {
-			c07Container(c, fd, name, ct, rest, disj, other)
+			c07Container(c, fd, name, ct, par, own, v, paths)
 		}
 	}
 	c.R.Floor("C07.R1", n, 7)
 }
 
-func splitOr(e ast.Expr) []ast.Expr {
-	e = unparen(e)
-	if b, ok := e.(*ast.BinaryExpr); ok && b.Op == token.LOR {
-		return append(splitOr(b.X), splitOr(b.Y)...)
+func mentionsBareAssert(t Term, par types.Object) bool {
+	found := false
+	var walk func(t Term, underProj bool)
+	walk = func(t Term, underProj bool) {
+		switch x := t.(type) {
+		case TAssert:
+			if isParamTerm(x.X, par) && !underProj {
+				// the type-switch binding also yields a bare TAssert, but only on a path where TypeIs already holds; callers check paths, so
+				// this is flagged only when no TypeIs/ok condition is present — handled by the caller's first-condition rule. Not flagged here.
+			}
+			walk(x.X, false)
+		case TProj:
+			walk(x.X, true)
+		case TSel:
+			walk(x.X, false)
+		case TBin:
+			walk(x.X, false)
+			walk(x.Y, false)
+		case TUn:
+			walk(x.X, false)
+		case TCall:
+			if x.Recv != nil {
+				walk(x.Recv, false)
+			}
+			for _, a := range x.Args {
+				walk(a, false)
+			}
+		case TIndex:
+			walk(x.X, false)
+			walk(x.I, false)
+		}
 	}
-	return []ast.Expr{e}
+	walk(t, false)
+	return found
 }
 
-func (c *Ctx) returnsConstBool(b *ast.BlockStmt, v bool) bool {
-	r := singleReturn(b)
-	return r != nil && len(r.Results) == 1 && c.isConstBool(r.Results[0], v)
-}
-
-func c07Scalar(c *Ctx, fd *ast.FuncDecl, name string, rest []ast.Stmt, disj []ast.Expr, other types.Object, st *types.Struct) {
+func c07Scalar(c *Ctx, fd *ast.FuncDecl, name string, t *types.Named, par types.Object, own types.Type, v *sxView, paths []*Path) {
 	ob := c.Ob("C07.R2", name, fd.Pos())
-	if len(disj) != 1 || len(rest) != 2 {
-		ob.Fail("scalar isEqual has extra conditions or statements")
+	st, _ := t.Underlying().(*types.Struct)
+	outs := boolOutcomes(paths)
+	for _, p := range paths {
+		if len(p.Effects()) != 0 {
+			ob.Fail("scalar isEqual has effects")
+			return
+		}
+	}
+	payloadEq := func(tm Term) bool {
+		b, ok := tm.(TBin)
+		if !ok || b.Op != token.EQL || st == nil || st.NumFields() != 1 {
+			return false
+		}
+		l, ok1 := b.X.(TSel)
+		r, ok2 := b.Y.(TSel)
+		if !ok1 || !ok2 || l.Field != st.Field(0) || r.Field != st.Field(0) {
+			return false
+		}
+		return (v.isRecv(l.X) && otherValue(r.X, par, own)) || (v.isRecv(r.X) && otherValue(l.X, par, own))
+	}
+	classify := func(tm Term) string {
+		if isOK, _ := ownTypeAtom(tm, par, own); isOK {
+			return "own-type"
+		}
+		if payloadEq(tm) {
+			return "payload-equal"
+		}
+		return ""
+	}
+	if st != nil && st.NumFields() == 0 {
+		why := truthTable(outs, []string{"own-type"}, classify, func(a map[string]bool) (bool, bool) { return a["own-type"], false })
+		if why == "" {
+			ob.Ok("nil equals exactly nil: result == (operand is a nil wrapper)")
+		} else {
+			ob.Fail("nil wrapper's isEqual is not `operand is a nil wrapper`: %s", why)
+		}
 		return
 	}
-	r, ok := rest[1].(*ast.ReturnStmt)
-	if !ok || len(r.Results) != 1 {
-		ob.Fail("does not end in a return")
-		return
+	// the payload comparison may only be evaluated after the type test succeeded
+	for _, o := range outs {
+		seenOK := false
+		for _, cd := range o.Conds {
+			if classify(cd.T) == "own-type" && cd.Truth {
+				seenOK = true
+			}
+			if classify(cd.T) == "payload-equal" && !seenOK {
+				ob.Fail("the payload is compared before the type test succeeded (nil dereference on another kind)")
+				return
+			}
+		}
 	}
-	be, ok := unparen(r.Results[0]).(*ast.BinaryExpr)
-	if !ok || be.Op != token.EQL {
-		ob.Fail("result is not an == comparison")
-		return
+	why := truthTable(outs, []string{"own-type", "payload-equal"}, classify, func(a map[string]bool) (bool, bool) { return a["own-type"] && a["payload-equal"], false })
+	if why == "" {
+		ob.Ok("truth table over {own type, recv.%s == other.%s}: result == both — same payload field on the two distinct operands, compared with ==", st.Field(0).Name(), st.Field(0).Name())
+	} else {
+		ob.Fail("scalar isEqual is not `own type AND recv.payload == other.payload`: %s", why)
 	}
-	ls, ok1 := unparen(be.X).(*ast.SelectorExpr)
-	rs, ok2 := unparen(be.Y).(*ast.SelectorExpr)
-	if !ok1 || !ok2 {
-		ob.Fail("comparison operands are not payload fields")
-		return
-	}
-	recv := c.recvObj(fd)
-	a, b := c.obj(ls.X), c.obj(rs.X)
-	sameField := c.Info.Selections[ls] != nil && c.Info.Selections[rs] != nil && c.Info.Selections[ls].Obj() == c.Info.Selections[rs].Obj() && st != nil && st.NumFields() == 1 && c.Info.Selections[ls].Obj() == st.Field(0)
-	distinct := (a == recv && b == other) || (a == other && b == recv)
-	ob.Check(sameField && distinct && other != nil, "returns recv."+ls.Sel.Name+" == other."+rs.Sel.Name+" (same payload field, the two distinct operands)", "scalar comparison is not payload == payload of receiver and operand")
 }
 
-func c07Container(c *Ctx, fd *ast.FuncDecl, name string, ct *Cont, rest []ast.Stmt, disj []ast.Expr, other types.Object) {
-	ob := c.Ob("C07.R3", name+"/length", fd.Pos())
-	// length comparison among the disjuncts after !ok
-	lenOK := false
-	for _, d := range disj[1:] {
-		be, ok := unparen(d).(*ast.BinaryExpr)
-		if !ok || be.Op != token.NEQ {
-			continue
+func c07Container(c *Ctx, fd *ast.FuncDecl, name string, ct *Cont, par types.Object, own types.Type, v *sxView, paths []*Path) {
+	lenOb := c.Ob("C07.R3", name+"/length", fd.Pos())
+	loopOb := c.Ob("C07.R3", name+"/loop", fd.Pos())
+	// atoms
+	isLenCmp := func(tm Term) (eqOp bool, ok bool) {
+		b, isB := tm.(TBin)
+		if !isB || (b.Op != token.EQL && b.Op != token.NEQ) {
+			return false, false
 		}
-		if (c.isCountOfRecv(fd, be.X) && c.isCountOfVar(be.Y, other, ct)) || (c.isCountOfRecv(fd, be.Y) && c.isCountOfVar(be.X, other, ct)) {
-			lenOK = true
+		x, okx := v.countOf(b.X)
+		y, oky := v.countOf(b.Y)
+		if !okx || !oky {
+			return false, false
+		}
+		if (v.isSelf(x) && otherValue(y, par, own)) || (v.isSelf(y) && otherValue(x, par, own)) {
+			return b.Op == token.EQL, true
+		}
+		return false, false
+	}
+	nTrue := 0
+	for _, p := range paths {
+		if p.End != "return" || len(p.Vals) != 1 {
+			loopOb.Fail("a path does not return a boolean")
+			return
+		}
+		val := simplify(p.Vals[0])
+		if !isConstBoolTerm(val, true) && !isConstBoolTerm(val, false) {
+			loopOb.Undecided("container isEqual returns a non-constant %s", c.termStr(val))
+			return
+		}
+		// classify the path: ok?, lenEqual?, passed loop?
+		okTrue, lenEq, lenSeen := false, false, false
+		var loop *LoopRec
+		inLoopReturn := false
+		for _, s := range p.Steps {
+			switch s.Kind {
+			case "cond":
+				if isOK, _ := ownTypeAtom(s.Cond.T, par, own); isOK {
+					okTrue = s.Cond.Truth
+					continue
+				}
+				if eqOp, ok := isLenCmp(s.Cond.T); ok {
+					if loop != nil {
+						lenOb.Fail("the length comparison comes after the element loop")
+						return
+					}
+					lenSeen = true
+					lenEq = eqOp == s.Cond.Truth
+					continue
+				}
+				if loop != nil {
+					inLoopReturn = true // conditions after the loop step belong to an in-loop exit path
+					continue
+				}
+				loopOb.Fail("unexpected decision %s", c.termStr(s.Cond.T))
+				return
+			case "loop":
+				if loop != nil {
+					loopOb.Fail("more than one loop")
+					return
+				}
+				loop = s.Loop
+			default:
+				loopOb.Fail("container isEqual has an effect (%s)", s.Kind)
+				return
+			}
+		}
+		if isConstBoolTerm(val, true) {
+			nTrue++
+			if !okTrue || !lenSeen || !lenEq {
+				lenOb.Fail("`true` is returned on a path that did not establish own type and equal lengths: prefix-equality / missing keys would pass, or the loop indexes out of range")
+				return
+			}
+			if loop == nil || inLoopReturn {
+				loopOb.Fail("`true` is returned without completing the element loop")
+				return
+			}
+		}
+		if loop != nil && !(okTrue && lenSeen && lenEq) {
+			lenOb.Fail("the element loop is entered without the own-type test and the length equality")
+			return
+		}
+		if loop != nil {
+			if why := c07Loop(c, v, loop, par, own, ct); why != "" {
+				loopOb.Fail("%s", why)
+				return
+			}
 		}
 	}
-	if len(disj) != 2 {
-		lenOK = false
-	}
-	ob.Check(lenOK, "`count(recv) != count(other)` rejects before the element loop (so a shorter/longer operand or a different key count is unequal, never out of range)",
-		"no length comparison `count(recv) != count(other)` guards the element loop: prefix-equality / missing keys would pass, or the loop indexes out of range")
-	// loop
-	lob := c.Ob("C07.R3", name+"/loop", fd.Pos())
-	sl := spineLoops(c, fd)
-	if len(sl) != 1 || len(allLoops(fd)) != 1 || len(rest) != 3 || rest[1] != ast.Stmt(sl[0].Stmt) {
-		lob.Fail("expected exactly: guard, one range loop over the receiver's spine, return")
+	if nTrue != 1 {
+		loopOb.Fail("expected exactly one path returning true (after the loop), found %d", nTrue)
 		return
 	}
-	l := sl[0]
-	if why := loopEarlyExitNoReturn(l.Stmt); why != "" {
-		lob.Fail("%s inside the comparison loop", why)
-		return
+	lenOb.Ok("`count(recv) == count(other)` is established before the element loop on the only path that returns true (a shorter/longer operand or a different key count is unequal, never out of range)")
+	loopOb.Ok("every element/key k of the receiver: recv[k].isEqual(other[k]); false on first mismatch; true only after the loop (a missing key yields a nil field, which no isEqual accepts)")
+}
+
+// c07Loop checks the element loop of a container isEqual.
+func c07Loop(c *Ctx, v *sxView, l *LoopRec, par types.Object, own types.Type, ct *Cont) string {
+	if l.Range == nil || !v.isRecvSpine(l.Over) {
+		return "the element loop does not range over the receiver's own spine"
 	}
-	nf := c.loopNormalForm(l.Stmt.Body)
-	if len(nf.Undecided) > 0 || len(nf.Tests) != 0 || len(nf.Actions) != 1 || nf.Actions[0].Kind != "return" {
-		lob.Fail("loop body is not a single guarded `return false`")
-		return
+	if len(l.Iter) != 2 {
+		return "loop body is not a single mismatch test"
 	}
-	act := nf.Actions[0]
-	ret := act.Stmt.(*ast.ReturnStmt)
-	if len(ret.Results) != 1 || !c.isConstBool(ret.Results[0], false) || len(act.Guard) != 1 || !act.Guard[0].Neg {
-		lob.Fail("the in-loop return is not `if !equal { return false }`")
-		return
+	var pass, fail *Path
+	for _, p := range l.Iter {
+		switch {
+		case (p.End == "fall" || p.End == "continue") && len(p.Effects()) == 0:
+			pass = p
+		case p.End == "return" && len(p.Vals) == 1 && isConstBoolTerm(simplify(p.Vals[0]), false) && len(p.Effects()) == 0:
+			fail = p
+		default:
+			return "loop body has a path that neither continues nor returns false (" + p.End + ")"
+		}
 	}
-	call, ok := act.Guard[0].Expr.(*ast.CallExpr)
-	if !ok || len(call.Args) != 1 {
-		lob.Fail("mismatch test is not a.isEqual(b)")
-		return
+	if pass == nil || fail == nil || len(pass.Conds()) != 1 || len(fail.Conds()) != 1 || !pass.Conds()[0].Truth || fail.Conds()[0].Truth || !sameTerm(pass.Conds()[0].T, fail.Conds()[0].T) {
+		return "loop body is not `if !a.isEqual(b) { return false }`"
 	}
-	sel, ok := unparen(call.Fun).(*ast.SelectorExpr)
-	callee := c.callee(call)
-	if !ok || callee == nil || callee.Name() != c.FuncObj(fd).Name() {
-		lob.Fail("mismatch test does not call the element's isEqual")
-		return
+	call, ok := pass.Conds()[0].T.(TCall)
+	if !ok || call.Fun == nil || call.Fun.Name() != "isEqual" || len(call.Args) != 1 || call.Recv == nil {
+		return "mismatch test is not a.isEqual(b)"
 	}
-	// a = recv.val[k] or the range value; b = other.val[k]; k = range key
+	isKey := func(t Term) bool { return l.Key != nil && isParamTerm(t, l.Key) }
 	aOK := false
-	if ix, ok := unparen(sel.X).(*ast.IndexExpr); ok && c.isRecvSpine(fd, ix.X) && l.Key != nil && c.obj(ix.Index) == l.Key {
+	if ix, ok := call.Recv.(TIndex); ok && v.isRecvSpine(ix.X) && isKey(ix.I) {
 		aOK = true
-	} else if l.Value != nil && c.obj(sel.X) == l.Value {
+	} else if l.Value != nil && isParamTerm(call.Recv, l.Value) {
 		aOK = true
 	}
 	bOK := false
-	if ix, ok := unparen(call.Args[0]).(*ast.IndexExpr); ok && l.Key != nil && c.obj(ix.Index) == l.Key {
-		if base, bct := c.spineBase(ix.X); bct == ct && c.obj(base) == other && other != nil {
+	if ix, ok := call.Args[0].(TIndex); ok && isKey(ix.I) {
+		if base, bct := v.spineOf(ix.X); bct == ct && otherValue(base, par, own) {
 			bOK = true
 		}
 	}
 	if !aOK || !bOK {
-		lob.Fail("elements compared are not recv.spine[k] and other.spine[k] for the same range key k")
-		return
+		return "elements compared are not recv.spine[k] and other.spine[k] for the same range key k"
 	}
-	r, isR := rest[2].(*ast.ReturnStmt)
-	if !isR || len(r.Results) != 1 || !c.isConstBool(r.Results[0], true) || len(returnsOf(fd.Body)) != 3 {
-		lob.Fail("`return true` does not follow the loop as the only other return")
-		return
-	}
-	lob.Ok("every element/key k of the receiver: recv[k].isEqual(other[k]); false on first mismatch; true only after the loop (a missing key yields a nil field, which no isEqual accepts)")
-}
-
-// isCountOfVar: len(v.val), v.Count(), v.Ego().Count() for the local v of the container's own pointer type.
-func (c *Ctx) isCountOfVar(e ast.Expr, v types.Object, ct *Cont) bool {
-	if v == nil {
-		return false
-	}
-	call, ok := unparen(e).(*ast.CallExpr)
-	if !ok {
-		return false
-	}
-	if c.isBuiltin(call, "len") && len(call.Args) == 1 {
-		base, bct := c.spineBase(call.Args[0])
-		return bct == ct && c.obj(base) == v
-	}
-	if len(call.Args) != 0 {
-		return false
-	}
-	sel, ok := unparen(call.Fun).(*ast.SelectorExpr)
-	if !ok || !c.isLenAccessor(c.callee(call)) {
-		return false
-	}
-	x := unparen(sel.X)
-	if c.obj(x) == v {
-		return true
-	}
-	if inner, ok := x.(*ast.CallExpr); ok && len(inner.Args) == 0 {
-		if s2, ok := unparen(inner.Fun).(*ast.SelectorExpr); ok && c.obj(s2.X) == v && c.isEgoAccessor(c.callee(inner)) {
-			return true
-		}
-	}
-	return false
+	return ""
 }
 
 func c07R4(c *Ctx) {
@@ -284,20 +383,13 @@ func c07R4(c *Ctx) {
 		}
 		n++
 		ob := c.Ob("C07.R4", name, fd.Pos())
-		var par types.Object
-		if len(fd.Type.Params.List) == 1 && len(fd.Type.Params.List[0].Names) == 1 {
-			par = c.Info.Defs[fd.Type.Params.List[0].Names[0]]
-		}
-		r := singleReturn(fd.Body)
-		good := false
-		if r != nil && len(r.Results) == 1 && par != nil {
-			if call, ok := unparen(r.Results[0]).(*ast.CallExpr); ok && len(call.Args) == 1 && c.obj(call.Args[0]) == par {
-				if sel, ok := unparen(call.Fun).(*ast.SelectorExpr); ok && c.isSelf(fd, sel.X) {
-					if cal := c.callee(call); cal != nil && cal.Name() == "isEqual" {
-						good = true
-					}
-				}
-			}
+		par := soleParam(c, fd)
+		v := c.view(fd)
+		paths := c.NewSX().Run(fd)
+		good := len(paths) == 1 && paths[0].Why == "" && paths[0].End == "return" && len(paths[0].Vals) == 1 && len(paths[0].Effects()) == 0
+		if good {
+			call, ok := paths[0].Vals[0].(TCall)
+			good = ok && call.Fun != nil && call.Fun.Name() == "isEqual" && call.Recv != nil && v.isSelf(call.Recv) && len(call.Args) == 1 && isParamTerm(call.Args[0], par)
 		}
 		ob.Check(good, "returns self.isEqual(argument)", "Equals does not simply return isEqual of the receiver with its argument")
 	}
